@@ -12,6 +12,24 @@ REPO = os.environ.get("VERIF_REPO", "/repo")   # a scratch worktree when run as 
 def sh(cmd, **kw):
     return subprocess.run(cmd, shell=True, capture_output=True, text=True, **kw)
 
+HEADER = ("# Seeded changes vs. checks (written by tools/seed_sweep.py; a partial sweep updates its rows only)\n\n"
+          "| seed | property | result | first message | s |\n|---|---|---|---|---|\n")
+
+
+def write_results(path, new_rows):
+    """new_rows: list of markdown row strings; rows of seeds not swept this time are kept"""
+    rows = {}
+    if os.path.exists(path):
+        for l in open(path):
+            if l.startswith("| C") or l.startswith("| harmless"):
+                rows[l.split("|")[1].strip()] = l
+    for l in new_rows:
+        rows[l.split("|")[1].strip()] = l if l.endswith("\n") else l + "\n"
+    with open(path, "w") as f:
+        f.write(HEADER)
+        f.writelines(rows[k] for k in sorted(rows))
+
+
 def sweep_parallel(n, only):
     """n workers, each with its own copy of /verif (caches included) and its own worktree of /repo under /tmp/sw"""
     import shutil
@@ -22,7 +40,7 @@ def sweep_parallel(n, only):
     for i in range(n):
         w = f"{base}/w{i}"
         sh(f"git -C /repo worktree remove --force {w}/repo; rm -rf {w}; mkdir -p {w}")
-        sh(f"rsync -a --exclude replays {ROOT}/ {w}/verif/")
+        sh(f"rsync -a --exclude replays {ROOT}/ {w}/verif/; rm -f {w}/verif/seeded/RESULTS.md")
         r = sh(f"git -C /repo worktree add --detach {w}/repo HEAD")
         if r.returncode != 0:
             sys.exit(r.stderr)
@@ -38,9 +56,7 @@ def sweep_parallel(n, only):
         for l in open(f"{w}/verif/seeded/RESULTS.md"):
             if l.startswith("| C") or l.startswith("| harmless"):
                 rows.append(l)
-    with open(f"{ROOT}/seeded/RESULTS.md", "w") as f:
-        f.write("# Seeded changes vs. checks (written by tools/seed_sweep.py)\n\n| seed | property | result | first message | s |\n|---|---|---|---|---|\n")
-        f.writelines(sorted(rows))
+    write_results(f"{ROOT}/seeded/RESULTS.md", rows)
     for i in range(n):
         sh(f"git -C /repo worktree remove --force {base}/w{i}/repo; rm -rf {base}/w{i}")
     missed = [r for r in rows if "MISSED" in r or "ALARM" in r]
@@ -101,10 +117,8 @@ def main():
         print(rows[-1], flush=True)
     if REPO == "/repo":
         sh("git checkout -- evidence", cwd=ROOT)
-    with open(f"{ROOT}/seeded/RESULTS.md", "w") as f:
-        f.write("# Seeded changes vs. checks (written by tools/seed_sweep.py)\n\n| seed | property | result | first message | s |\n|---|---|---|---|---|\n")
-        for d, prop, res, msg, t in rows:
-            f.write(f"| {d} | {prop} | {res} | {msg.replace('|', '/')} | {t:.0f} |\n")
+    write_results(f"{ROOT}/seeded/RESULTS.md",
+                  [f"| {d} | {prop} | {res} | {msg.replace('|', '/')} | {t:.0f} |\n" for d, prop, res, msg, t in rows])
     missed = [r for r in rows if r[2] == "MISSED" or r[2].startswith("ALARM")]
     print(f"{len(rows)} seeds, {len(missed)} missed / false alarms")
     return 1 if missed else 0
